@@ -15,10 +15,10 @@ import threading
 import numpy as np
 
 ID = 'C06'
-RULE = ('integer-valued rasters up to 10x10 (float64/float32/int32/int64, a few NaN/inf cells) with unit, non-square, '
+RULE = ('integer-valued rasters up to 10x10 plus one of 18..30 rows/columns (every dtype Numba takes: float64/32, int8..64, uint8..64, bool; a few NaN/inf cells) with unit, non-square, '
         'descending, offset and (NumPy only) non-uniform integer coordinates; target layouts: single target at every kind '
         'of position, sparse, dense, lines/diagonals, no target, all targets, layouts on which the GDAL heuristic is inexact; '
-        'targets by the default rule and by explicit target_values (incl. values float32 cannot represent: int64 ids around 2**24, '
+        'targets by the default rule and by explicit target_values (list / ints / tuple / ndarray; unsorted, duplicated, absent values, 0, negative, NaN and inf entries; dimension names passed through x= / y=; max_distance None, int, huge up to 1e200; fractional / tiny / huge-offset coordinates (oracle only); incl. values float32 cannot represent: int64 ids around 2**24, '
         '0.1, 1e-50, 1e39); cells taller than wide; max_distance attained exactly (radius 2, Manhattan 3, 3-4-5) and 0 / 0.0; metrics EUCLIDEAN / MANHATTAN (compared cell by cell with '
         'the model: distance key, allocation, bearing; GREAT_CIRCLE too, through the Coq model of the metric, integer degrees); max_distance in '
         '{0, fractions of a cell, 1, sqrt2, 2, sqrt5, ..., multiples of the cell size, inf}. proximity, allocation and '
@@ -50,7 +50,7 @@ TRUSTED = [
 ]
 ASSUMPTIONS = ['NumPy backend (Dask is C07); 2-D raster with dims (y, x); coordinates finite; the exact-instance model '
                'covers integer coordinates (any integer cell size, either orientation; integer degrees inside '
-               '[-180,180]x[-90,90] for GREAT_CIRCLE); max_distance >= 0; direction 0 and 360 are the same compass direction: a target '
+               '[-180,180]x[-90,90] for GREAT_CIRCLE); max_distance >= 0 or None (a negative max_distance acts as its absolute value in the code and is outside the domain); at least one row and one column (an empty raster raises IndexError); float16 rasters are rejected by Numba (NotImplementedError); direction 0 and 360 are the same compass direction: a target '
                'within a few ulps of due north may be reported as 0 (rounding at the seam)']
 PARTIAL = [
     'C06_exact_full_statement (proximity equals the exact nearest-target distance for every layout) is NOT claimed: the '
@@ -113,7 +113,8 @@ def _build_raster(case, dask_chunks=None):
     if dask_chunks is not None:
         import dask.array as da
         a = da.from_array(a, chunks=(tuple(dask_chunks[0]), tuple(dask_chunks[1])))
-    r = xr.DataArray(a, dims=['y', 'x'], coords={'y': ys, 'x': xs})
+    yn, xn = case.get('dims', ['y', 'x'])
+    r = xr.DataArray(a, dims=[yn, xn], coords={yn: ys, xn: xs})
     if case.get('res') is not None:
         r.attrs['res'] = tuple(case['res']) if isinstance(case['res'], list) else case['res']
     return r
@@ -126,14 +127,28 @@ def _call3(case, dask_chunks=None, only=None):
     md = INF if md in ('inf', None) else float(md)
     if case.get('md_int') and md != INF:
         md = int(md)
+    if case['max_distance'] is None:
+        md = None                                   # documented: None means unbounded
+    tv = list(case.get('tv', []))
+    kind = case.get('tv_kind', 'list')
+    if kind == 'ints' and all(float(v) == int(v) for v in tv if not (math.isnan(v) or math.isinf(v))) \
+            and not any(math.isnan(v) or math.isinf(v) for v in tv):
+        tv = [int(v) for v in tv]
+    elif kind == 'tuple':
+        tv = tuple(tv)
+    elif kind == 'ndarray':
+        tv = np.array(tv, dtype='float64')
+    kw = {}
+    if case.get('dims'):
+        kw = dict(y=case['dims'][0], x=case['dims'][1])
     out = {}
     for name in ('proximity', 'allocation', 'direction'):
         if only and name not in only:
             continue
         r = _build_raster(case, dask_chunks)
         try:
-            res = getattr(P, name)(r, target_values=list(case.get('tv', [])), max_distance=md,
-                                   distance_metric=case.get('metric', 'EUCLIDEAN'))
+            res = getattr(P, name)(r, target_values=tv, max_distance=md,
+                                   distance_metric=case.get('metric', 'EUCLIDEAN'), **kw)
             v = res.data
             if dask_chunks is not None:
                 if case.get('scheduler'):
@@ -346,11 +361,14 @@ def gc_thresholds(md):
         d = np.float32(_f32_from_bits(b))
         with np.errstate(over='ignore'):
             return float(d * d)
+    with np.errstate(over='ignore'):
+        md2x2 = float(np.float64(md) ** 2 * 2.0)
+        md2 = float(np.float64(md) * np.float64(md))
     top = 0x7f800000                        # +inf
     lo, hi = 0, top                         # first b with not g(b) < 2 md^2
     while lo < hi:
         mid = (lo + hi) // 2
-        if g(mid) < md ** 2 * 2.0:
+        if g(mid) < md2x2:
             lo = mid + 1
         else:
             hi = mid
@@ -358,7 +376,7 @@ def gc_thresholds(md):
     lo, hi = -1, top - 1                    # last b with md*md >= g(b)
     while lo < hi:
         mid = (lo + hi + 1) // 2
-        if md * md >= g(mid):
+        if md2 >= g(mid):
             lo = mid
         else:
             hi = mid - 1
@@ -401,8 +419,11 @@ def key_params(metric, xs, ys, md):
     ties = [k for k in K if g[k] < hh[k]]
     if md == INF:
         return 'inf', 'inf', ties
-    r_ok = [g[k] < md ** 2 * 2.0 for k in K]
-    m_ok = [md * md >= g[k] for k in K]
+    with np.errstate(over='ignore'):
+        md2x2 = float(np.float64(md) ** 2 * 2.0)
+        md2 = float(np.float64(md) * np.float64(md))
+    r_ok = [g[k] < md2x2 for k in K]
+    m_ok = [md2 >= g[k] for k in K]
     for flags in (r_ok, m_ok):
         if any((not a) and b for a, b in zip(flags, flags[1:])):
             raise ValueError('threshold not a prefix')
@@ -870,13 +891,42 @@ def gen_layout(rng, h, w, kind):
     return g
 
 
+# every dtype Numba accepts for the raster (float16 is not supported by Numba: NotImplementedError, outside the domain)
+DTYPES = ['float64', 'float64', 'float32', 'float32', 'int32', 'int64', 'int8', 'int16', 'uint8', 'uint16', 'uint32', 'uint64',
+          'bool']
+
+
+def vary_target_values(rng, tv):
+    """unsorted, duplicated, absent, 0 / NaN / inf entries (NaN never matches; inf matches inf cells)"""
+    tv = list(tv)
+    u = rng.random()
+    if u < 0.15:
+        tv = tv + [tv[0]]                          # duplicate
+    elif u < 0.30:
+        tv = tv[::-1] + [float(rng.randint(10, 20))]   # unsorted + a value absent from the raster
+    elif u < 0.40:
+        tv = [float('nan')] + tv
+    elif u < 0.50:
+        tv = tv + [float('inf')]
+    elif u < 0.58:
+        tv = [float(rng.randint(10, 20))]          # only absent values: no target at all
+    elif u < 0.66:
+        tv = tv + [0.0]
+    elif u < 0.72:
+        tv = tv + [-float(rng.randint(1, 9))]
+    rng.shuffle(tv)
+    return tv
+
+
 LAYOUTS = ['single', 'multi', 'sparse', 'sparse', 'dense', 'line', 'diag', 'edges', 'distinct', 'multi', 'all', 'none',
            'single', 'multi', 'distinct']
 COORDS = ['unit', 'unit', 'desc', 'nonsquare', 'nonsquare_desc', 'nonuniform']
 
 
-def gen_case(rng, i, small=False, metric=None):
-    if small:
+def gen_case(rng, i, small=False, metric=None, shape=None):
+    if shape:
+        h, w = shape
+    elif small:
         h, w = rng.choice([(1, 1), (1, 4), (4, 1), (2, 3), (3, 4), (3, 3), (2, 6), (1, 9)])
     else:
         h, w = rng.randint(2, 10), rng.randint(2, 10)
@@ -895,7 +945,7 @@ def gen_case(rng, i, small=False, metric=None):
         if rng.random() < 0.4:
             ys = ys[::-1]
         ykind = xkind = 'tall'
-    dtype = rng.choice(['float64', 'float64', 'float32', 'int32', 'int64'])
+    dtype = rng.choice(DTYPES)
     data = [[float(v) for v in row] for row in g]
     tv = []
     mode = 'default'
@@ -909,6 +959,7 @@ def gen_case(rng, i, small=False, metric=None):
         if not tv:
             tv = [rng.randint(1, 9)]
         tv = [float(v) for v in tv]
+        tv = vary_target_values(rng, tv)
     if dtype.startswith('float'):
         for r in range(h):
             for c in range(w):
@@ -924,9 +975,21 @@ def gen_case(rng, i, small=False, metric=None):
         # relative to a cell size
         cs = abs(xs[1] - xs[0]) if w > 1 else 1
         md = float(md) * cs
+    u = rng.random()
+    if u < 0.04:
+        md = None                                  # documented spelling of "unbounded"
+    elif u < 0.08:
+        md = rng.choice([1e6, 1e30, 1e200])        # huge: max_distance**2 overflows for the last one
     cdtype = 'int64' if rng.random() < 0.2 else 'float64'
-    return dict(fn='numpy3', layout=layout, metric=metric, data=data, dtype=dtype, xs=xs, ys=ys, cdtype=cdtype,
+    case = dict(fn='numpy3', layout=layout, metric=metric, data=data, dtype=dtype, xs=xs, ys=ys, cdtype=cdtype,
                 ykind=ykind, xkind=xkind, tv=tv, mode=mode, max_distance=md)
+    if tv:
+        case['tv_kind'] = rng.choice(['list', 'list', 'ints', 'tuple', 'ndarray'])
+    if md not in ('inf', None) and float(md) == int(float(md)) and float(md) < 1e18 and rng.random() < 0.3:
+        case['md_int'] = True                      # max_distance given as a Python int
+    if rng.random() < 0.2:
+        case['dims'] = rng.choice([['lat', 'lon'], ['row', 'col'], ['x', 'y']])   # names passed through y= / x=
+    return case
 
 
 def gen_gc_case(rng, i):
@@ -1079,6 +1142,33 @@ def sequence_cases(rng):
     return out
 
 
+def odd_coordinate_cases(rng):
+    """coordinates the integer-key model does not take: fractional (dyadic and not), tiny, huge offsets, mixed directions -
+    oracle only, except the integer-valued huge ones; and one larger raster"""
+    out = []
+    for kind in ('fractional', 'tiny', 'huge'):
+        h, w = rng.randint(3, 8), rng.randint(3, 8)
+        g = gen_layout(rng, h, w, rng.choice(['multi', 'sparse', 'single', 'distinct']))
+        if kind == 'fractional':
+            sx, sy, x0, y0 = rng.choice([0.25, 0.5, 2.5, 0.1]), rng.choice([0.25, 1.5, 0.3]), -1.75, 10.5
+        elif kind == 'tiny':
+            sx, sy, x0, y0 = 1e-3, rng.choice([1e-3, 2e-3]), 0.0, 5.0
+        else:
+            sx, sy, x0, y0 = 1000.0, rng.choice([1000.0, 250.0]), 4.0e6, -7.5e6
+        xs = [x0 + sx * j for j in range(w)]
+        ys = [y0 + sy * j for j in range(h)]
+        if rng.random() < 0.5:
+            ys = ys[::-1]
+        md = rng.choice(['inf', 1.0 * sx, 2.0 * sx, 2.5 * sy, 1.5 * max(sx, sy)])
+        integral = all(float(v) == int(v) for v in xs + ys)
+        out.append(base_case(g, layout='coords-' + kind, xs=xs, ys=ys, xkind=kind, ykind=kind, max_distance=md,
+                             metric=rng.choice(['EUCLIDEAN', 'MANHATTAN']), no_model=not integral))
+    big = gen_case(rng, rng.randrange(len(LAYOUTS)), shape=(rng.randint(18, 30), rng.randint(18, 30)))
+    big['layout'] = 'large-' + big['layout']
+    out.append(big)
+    return out
+
+
 def canon_impl(res):
     """worker result -> ({name: grid}, {name: error})"""
     grids, errs = {}, {}
@@ -1105,7 +1195,11 @@ def nontrivial(case):
 def build_cases(ctx, n_main, n_small, n_gc):
     rng = ctx.rng
     cases = [dict(FIXTURE), dict(FIXTURE, max_distance=2.0), dict(FIXTURE, metric='MANHATTAN', max_distance=3.0),
-             dict(WITNESS), dir0_case()] + hard_cases() + precision_cases(rng) + boundary_cases(rng)
+             dict(WITNESS), dir0_case()] + hard_cases() + precision_cases(rng) + boundary_cases(rng) + \
+        odd_coordinate_cases(rng)
+    # the named streams are repeated in the larger tiers (one round in quick)
+    for _ in range(max(0, n_main // 40 - 1)):
+        cases += precision_cases(rng) + boundary_cases(rng) + odd_coordinate_cases(rng)
     for i in range(n_main):
         cases.append(gen_case(rng, i))
     for i in range(n_small):
@@ -1120,7 +1214,7 @@ def process_results(ctx, cases, results, what='numpy'):
     for case, res in zip(cases, results):
         ctx.case(case, nontrivial=nontrivial(case))
         ctx.count('%s/%s/%s/%s/md=%s' % (what, case['metric'], case['layout'], case['mode'],
-                                         'inf' if case['max_distance'] == 'inf' else 'finite'))
+                                         'inf' if case['max_distance'] in ('inf', None) else 'finite'))
         ctx.count('coords/%s-%s' % (case['ykind'], case['xkind']))
         if 'fatal' in res:
             ctx.violation('oracle', '%s: worker failed: %s' % (what, res['fatal']), case)
@@ -1187,7 +1281,7 @@ def run_all(ctx, cases, rounds):
 
 def run(ctx):
     if ctx.quick():
-        cases = build_cases(ctx, 16, 4, 3)
+        cases = build_cases(ctx, 14, 3, 3)
         run_all(ctx, cases, 1)
     else:
         cases = build_cases(ctx, 420, 120, 60)
